@@ -12,6 +12,7 @@
 From Coq Require Import List NArith ZArith String Bool Sorted Permutation.
 From EKW Require Import Shm.Lottery Shm.LotteryProofs Shm.Manager Shm.ManagerProofs Shm.ManagerLive Shm.ManagerBytes.
 From EKW Require Import Shm.ManagerReaders Shm.ManagerLocks Shm.ManagerLocksProofs Shm.ManagerStuck.
+From EKW Require Import Shm.PageInChunks Shm.PageInChunksProofs.
 From EKW Require Shm.ManagerCheck.   (* not used here: keeps the correspondence checker's .vo in step with the model *)
 Import ListNotations.
 Open Scope string_scope.
@@ -305,6 +306,43 @@ Example C09_handlers_never_block_nonvacuous :
   play false [AcqOne; AcqOne; RelOne; RelOne] = None.
 Proof. vm_compute. repeat split; reflexivity. Qed.
 
+(* ------------------------------------------------------------------ (9) several page-ins at the same time *)
+(* The body of a page-in job is ONE step of the model above (JobIo).  Really it is a loop over chunks of the page file (read a chunk,
+   copy it into the segment) on one of the 4 threads of Disk.readers, and the bodies of the jobs of different keys interleave between
+   any two of these operations (gets of on-disk keys arriving back to back: every get launches its job and answers `wait`).
+   Shm/PageInChunks.v: a schedule is ANY list of job numbers, each entry = the next operation of that job; chunk size `ch` > 0.
+   With a chunk buffer of its own per job (the code: `b = f.read(chunk_size)`), whatever the schedule, a body that has finished has
+   filled its segment with exactly its page file -- which is what JobIo does in one step. *)
+Theorem C09_concurrent_page_ins_restore_the_bytes : forall ch files sched i j,
+  (0 < ch)%nat ->
+  nth_error (w_jobs (wrun ch false sched (wstart ch files))) i = Some j -> p_done j = true -> p_seg j = p_file j.
+Proof. intros ch files sched i j H. now apply concurrent_page_ins_restore_the_bytes. Qed.
+
+(* the page files are the ones the jobs were started with, in every variant *)
+Theorem C09_page_in_reads_its_own_file : forall ch sh sched w,
+  map p_file (w_jobs (wrun ch sh sched w)) = map p_file (w_jobs w).
+Proof. exact page_in_files_fixed. Qed.
+
+(* a body that reads into ONE scratch buffer shared by the pool (`shared = true`) is expressible in the model and wrong: two jobs,
+   each has read its chunk before the other copies: the first comes back with the bytes of the second *)
+Theorem C09_shared_page_in_buffer_is_wrong :
+  exists ch files sched i j, (0 < ch)%nat /\
+    nth_error (w_jobs (wrun ch true sched (wstart ch files))) i = Some j /\ p_done j = true /\ p_seg j <> p_file j.
+Proof.
+  exists 4%nat, [[10; 11; 12]; [241; 242; 243]]%N, [0; 1; 0; 1; 0; 1]%nat, 0%nat.
+  eexists. split; [repeat constructor|]. split; [vm_compute; reflexivity|]. split; [reflexivity|]. cbn. discriminate.
+Qed.
+
+Example C09_concurrent_page_ins_nonvacuous :
+  (* the same two jobs and the same schedule with private buffers; and a multi-chunk interleaving (chunk size 2) *)
+  map (fun j => (p_done j, p_seg j)) (w_jobs (wrun 4 false [0; 1; 0; 1; 0; 1]%nat (wstart 4 [[10; 11; 12]; [241; 242; 243]]%N))) =
+    [(true, [10; 11; 12]%N); (true, [241; 242; 243]%N)] /\
+  map (fun j => (p_done j, p_seg j)) (w_jobs (wrun 2 false [0; 1; 1; 0; 0; 1; 1; 0; 0; 0; 1; 1; 1; 0]%nat (wstart 2 [[1; 2; 3; 4; 5]; [9; 8; 7]]%N))) =
+    [(true, [1; 2; 3; 4; 5]%N); (true, [9; 8; 7]%N)] /\
+  map (fun j => (p_done j, p_seg j)) (w_jobs (wrun 4 true [0; 1; 0; 1; 0; 1]%nat (wstart 4 [[10; 11; 12]; [241; 242; 243]]%N))) =
+    [(true, [241; 242; 243]%N); (true, [241; 242; 243]%N)].
+Proof. vm_compute. repeat split; reflexivity. Qed.
+
 Print Assumptions C09_bytes_preserved_partial.
 Print Assumptions C09_bytes_preserved_refuted.
 Print Assumptions C09_no_read_before_close_partial.
@@ -321,3 +359,6 @@ Print Assumptions C09_reader_table_exact.
 Print Assumptions C09_handlers_never_block.
 Print Assumptions C09_purge_only_outside_sections.
 Print Assumptions C09_failed_pageout_under_stale_reader_refuted.
+Print Assumptions C09_concurrent_page_ins_restore_the_bytes.
+Print Assumptions C09_page_in_reads_its_own_file.
+Print Assumptions C09_shared_page_in_buffer_is_wrong.
